@@ -452,11 +452,12 @@ def fresh_config(config=None):
     from ombott import HTTPError
     from ombott.request_pkg import errors as rqe
     cfg = dict(config or {})
-    cfg['errors_map'] = {
-        rqe.RequestError: HTTPError(400, 'Bad request'),
-        rqe.BodySizeError: HTTPError(413, 'Request entity too large'),
-        rqe.BodyParsingError: HTTPError(400, 'Error while parsing chunked transfer body'),
-    }
+    # same statuses and texts as the defaults (whatever their wording is), but objects of this configuration's own
+    from ombott.ombott import DefaultConfig
+    cfg['errors_map'] = {cls: HTTPError(e.status_code, e.body) for cls, e in DefaultConfig.errors_map.items()}
+    for cls, (code, text) in {rqe.RequestError: (400, 'Bad request'), rqe.BodySizeError: (413, 'Request entity too large'),
+                              rqe.BodyParsingError: (400, 'Error while parsing chunked transfer body')}.items():
+        cfg['errors_map'].setdefault(cls, HTTPError(code, text))
     return cfg
 
 
